@@ -51,6 +51,14 @@ def specs():
     for w in want:
         if w in cfgs:
             out["hw:" + w] = B.to_yaml(cfgs[w][1])
+    # one buffet bound in both Einsums of a cascade: eager in the first, explicitly lazy in the last
+    w = "cas2|T:buf:T.N@K/lazy+Z:buf:Z.M@K/lazy|cp"
+    if w in cfgs:
+        z = B.to_yaml(cfgs[w][1])
+        for comp in z["bindings"]["T"]:
+            if comp.get("component") == "Buf":
+                comp["bindings"] = hw.mem_bindings("T", "N", ["coord"], evict="K", style="eager")
+        out["hw:cas2-eager-lazy"] = z
     # a buffer binding of type coord on a rank whose format declares no cbits
     if "hw:mm/MKN|buf:A.K@root/lazy|cp" in out:
         z = copy.deepcopy(out["hw:mm/MKN|buf:A.K@root/lazy|cp"])
